@@ -21,9 +21,15 @@ EXTENDS Naturals, Sequences, FiniteSets, TLC, Json
 Styles == {"return", "arg"}
 HookKinds == {"ok", "imported", "importedUnexported", "arity0", "arity1", "dstMismatch", "srcMismatch",
               "twoResults", "nonErrResult", "notFunc", "missing"}
-Extras == {"none", "all", "fewer", "wrong"}
+\* further parameters of the hook relative to the additional arguments (int, string) of the method:
+\* none; all of them with their types; fewer; other types; "wider": the first one declared as interface{},
+\* to which the method's argument is assignable
+Extras == {"none", "all", "fewer", "wrong", "wider"}
+\* argAny: the method's first additional argument is an interface{} (then an int parameter of the hook is too narrow)
+\* shared: the same hook function also serves an earlier method of the interface, which it fits
 Cfg == [style: Styles, recv: BOOLEAN, srcPtr: BOOLEAN, dstPtr: BOOLEAN, retErr: BOOLEAN, nargs: {0, 2},
-        which: {"pre", "post"}, hDstPtr: BOOLEAN, hSrcPtr: BOOLEAN, hErr: BOOLEAN, hExtra: Extras, kind: HookKinds]
+        which: {"pre", "post"}, hDstPtr: BOOLEAN, hSrcPtr: BOOLEAN, hErr: BOOLEAN, hExtra: Extras, kind: HookKinds,
+        argAny: BOOLEAN, shared: BOOLEAN]
 
 \* configurations that make sense: extra-parameter variants need additional arguments to relate to;
 \* the shape variants of a broken hook are explored with the simplest pointer/extra choice
@@ -34,6 +40,10 @@ Sensible(c) == /\ (c.nargs = 0 => c.hExtra = "none")
                /\ (c.kind \in {"imported", "importedUnexported"} => ~c.recv)
                \* the imported package offers hooks with no or with all additional parameters only
                /\ (c.kind = "imported" => c.hExtra \in {"none", "all"})
+               /\ (c.argAny => c.nargs = 2 /\ c.kind = "ok" /\ c.hExtra \in {"all", "wider"} /\ c.style = "return" /\ ~c.recv)
+               /\ (c.hExtra = "wider" => c.kind = "ok")
+               \* a second user of the hook is explored for local hooks, on the plainest method shape
+               /\ (c.shared => c.kind = "ok" /\ ~c.recv /\ ~c.argAny)
 
 VARIABLES cfg, pc, fit
 vars == <<cfg, pc, fit>>
@@ -57,6 +67,8 @@ Check ==
      ELSE IF cfg.hErr /\ ~cfg.retErr THEN Reject
      ELSE IF cfg.kind \in {"dstMismatch", "srcMismatch"} THEN Reject
      ELSE IF cfg.hExtra \in {"fewer", "wrong"} THEN Reject
+     \* every additional argument must be assignable to the parameter that receives it
+     ELSE IF cfg.argAny /\ cfg.hExtra = "all" THEN Reject
      ELSE pc' = "render" /\ UNCHANGED fit
   /\ UNCHANGED cfg
 
@@ -67,7 +79,7 @@ Render ==
   /\ pc = "render"
   /\ LET dstIsPtr == cfg.style = "arg" \/ cfg.dstPtr      \* as declared in the generated header
          args == <<Adapt(dstIsPtr, cfg.hDstPtr, "DST"), Adapt(cfg.srcPtr, cfg.hSrcPtr, "SRC")>>
-                 \o (IF cfg.hExtra = "all" THEN <<"ARG0", "ARG1">> ELSE << >>)
+                 \o (IF cfg.hExtra \in {"all", "wider"} THEN <<"ARG0", "ARG1">> ELSE << >>)
          name == IF cfg.kind = "imported" THEN "ext.Hook" ELSE "Hook" IN
      fit' = [reject |-> FALSE, call |-> [name |-> name, args |-> args, err |-> cfg.hErr, pos |-> cfg.which]]
   /\ pc' = "done"
@@ -81,7 +93,8 @@ Done == pc = "done"
 (* C10 / C07 on the model *)
 Fits(c) == /\ c.kind \in {"ok", "imported"}
            /\ (c.hErr => c.retErr)
-           /\ c.hExtra \in {"none", "all"}
+           /\ c.hExtra \in {"none", "all", "wider"}
+           /\ ~(c.argAny /\ c.hExtra = "all")
 UnfitRejected == Done => (fit.reject <=> ~Fits(cfg))
 \* C07: an error-returning hook is never wired into a function without error result
 ErrNeedsErrResult == Done /\ ~fit.reject /\ fit.call.err => cfg.retErr
@@ -89,7 +102,7 @@ ErrNeedsErrResult == Done /\ ~fit.reject /\ fit.call.err => cfg.retErr
 OperandOrder == Done /\ ~fit.reject =>
                   /\ fit.call.args[1] \in {"DST", "&DST", "*DST"}
                   /\ fit.call.args[2] \in {"SRC", "&SRC", "*SRC"}
-                  /\ (cfg.hExtra = "all" <=> Len(fit.call.args) = 4)
+                  /\ (cfg.hExtra \in {"all", "wider"} <=> Len(fit.call.args) = 4)
 \* never take the address of a pointer operand nor dereference a value
 AdaptSound == Done /\ ~fit.reject =>
                 LET dstIsPtr == cfg.style = "arg" \/ cfg.dstPtr IN
@@ -98,5 +111,7 @@ AdaptSound == Done /\ ~fit.reject =>
                   /\ (fit.call.args[2] = "&SRC" => ~cfg.srcPtr /\ cfg.hSrcPtr)
                   /\ (fit.call.args[2] = "*SRC" => cfg.srcPtr /\ ~cfg.hSrcPtr)
 
+\* the verdict on a hook is a matter of this method and this hook alone: whether the function also
+\* serves another method changes nothing (Fits does not read cfg.shared)
 Emit == Done => PrintT(<<"CASE", ToJson([cfg |-> cfg, fit |-> fit])>>)
 =============================================================================
